@@ -135,6 +135,7 @@ impl Aml for Path {
                 sink.byte(DUALNAMEPREFIX);
             }
             n => {
+                assert!(n <= u8::MAX as usize);
                 sink.byte(MULTINAMEPREFIX);
                 sink.byte(n as u8);
             }
